@@ -759,6 +759,11 @@ def public_run(ctx: Ctx, W, policy, n_snaps=2, same_path=True, seed=0):
     def fn(rank):
         for s in range(n_snaps):
             world.event("take_begin", snap=s)
+            # the application re-seeds the global RNGs the same way before every checkpoint (a deterministic retry, or the
+            # effect of restoring an RNGState first): snapshot ids / barrier ids must not repeat because of it
+            import random as _random
+            _random.seed(20240101)
+            torch.manual_seed(20240101)
             app = {"m": StateDict(w=torch.full((5,), float(rank * 10 + s)), v=torch.arange(3) + rank)}
             path = os.path.join(root, "snap" if same_path else f"snap{s}")
             pending = Snapshot.async_take(path, app)
